@@ -356,8 +356,44 @@ macro_rules! impl_tryfrom_integer {
             type Error = Error;
 
             fn try_from(value: Token) -> Result<Self, Self::Error> {
+                // Parse a NR1 numeric with checked arithmetic.
+                // lexical-core 0.8 wraps around for some out of range values (`500` as u8 is 244).
+                fn parse_nr1(s: &[u8]) -> Result<$from, lexical_core::Error> {
+                    let (negative, digits) = match s.split_first() {
+                        Some((b'-', digits)) => (true, digits),
+                        Some((b'+', digits)) => (false, digits),
+                        _ => (false, s),
+                    };
+                    if digits.is_empty() {
+                        return Err(lexical_core::Error::Empty(0));
+                    }
+                    // Not NR1 (fraction or exponent), caller falls back to floating point
+                    if let Some(i) = digits.iter().position(|c| !c.is_ascii_digit()) {
+                        return Err(lexical_core::Error::InvalidDigit(i));
+                    }
+                    let mut acc: $from = 0;
+                    for (i, c) in digits.iter().enumerate() {
+                        let digit = (c - b'0') as $from;
+                        acc = acc
+                            .checked_mul(10)
+                            .and_then(|acc| {
+                                if negative {
+                                    acc.checked_sub(digit)
+                                } else {
+                                    acc.checked_add(digit)
+                                }
+                            })
+                            .ok_or(if negative {
+                                lexical_core::Error::Underflow(i)
+                            } else {
+                                lexical_core::Error::Overflow(i)
+                            })?;
+                    }
+                    Ok(acc)
+                }
+
                 match value {
-                    Token::DecimalNumericProgramData(value) => lexical_core::parse::<$from>(value)
+                    Token::DecimalNumericProgramData(value) => parse_nr1(value)
                         .or_else(|e| {
                             if matches!(e, lexical_core::Error::InvalidDigit(_)) {
                                 let value = lexical_core::parse::<$intermediate>(value)?;
